@@ -2,6 +2,7 @@ package sim
 
 import (
 	"fmt"
+	"os"
 	"time"
 
 	"github.com/anishathalye/porcupine"
@@ -49,7 +50,7 @@ var kvModel = porcupine.Model{
 }
 
 // checkLinearizable is the end-to-end C11 check: Put = Propose (acknowledged
-// when the proposing node applies the entry), Get = ReadIndex at any node
+// when the first node applies the entry), Get = ReadIndex at any node
 // answered from local state once applied >= read index. History times are
 // logical steps; the register model is partitioned by key.
 func (w *World) checkLinearizable() {
@@ -63,7 +64,6 @@ func (w *World) checkLinearizable() {
 			maxIdx = i
 		}
 	}
-	end := int64(w.step*2 + 10)
 	var ops []porcupine.Operation
 	valueAt := func(idx uint64, key int) string {
 		for i := idx; i >= 1; i-- {
@@ -83,11 +83,16 @@ func (w *World) checkLinearizable() {
 		if pr == nil {
 			continue
 		}
-		ret := end
-		if s, ok := m.putApplied[i]; ok {
-			ret = int64(s*2 + 1)
+		// The write takes effect when a leader first commits its index; that
+		// instant lies between the Propose call and every acknowledgement a
+		// client could get, so using it as the operation's (tiny) interval
+		// only strengthens the check and keeps the search trivial.
+		c, ok := m.commitClock[i]
+		if !ok {
+			continue
 		}
-		ops = append(ops, porcupine.Operation{ClientId: id, Input: kvIn{true, payloadKey([]byte(p)), fmt.Sprintf("%s@%d", trunc([]byte(p)), i)}, Call: int64(pr.step * 2), Output: "", Return: ret})
+		_ = pr
+		ops = append(ops, porcupine.Operation{ClientId: id, Input: kvIn{true, payloadKey([]byte(p)), fmt.Sprintf("%s@%d", trunc([]byte(p)), i)}, Call: int64(c * 4), Output: "", Return: int64(c*4 + 1)})
 		id++
 	}
 	gets := 0
@@ -97,14 +102,19 @@ func (w *World) checkLinearizable() {
 		}
 		var at uint64
 		fmt.Sscan(op.val, &at)
-		ops = append(ops, porcupine.Operation{ClientId: id, Input: kvIn{false, op.key, ""}, Call: int64(op.call * 2), Output: valueAt(at, op.key), Return: int64(op.ret*2 + 1)})
+		ops = append(ops, porcupine.Operation{ClientId: id, Input: kvIn{false, op.key, ""}, Call: int64(op.call*4 + 2), Output: valueAt(at, op.key), Return: int64(op.ret*4 + 3)})
 		id++
 		gets++
 	}
 	if gets == 0 {
 		return
 	}
-	res, _ := porcupine.CheckOperationsVerbose(kvModel, ops, 10*time.Second)
+	if os.Getenv("RV_LINDUMP") != "" {
+		for _, op := range ops {
+			fmt.Printf("LIN %6d %6d %s\n", op.Call, op.Return, kvModel.DescribeOperation(op.Input, op.Output))
+		}
+	}
+	res, _ := porcupine.CheckOperationsVerbose(kvModel, ops, 5*time.Second)
 	w.Stats["porcupine-histories"]++
 	w.Stats["porcupine-ops"] += len(ops)
 	w.Stats["porcupine-gets"] += gets
